@@ -168,6 +168,98 @@ theorem Frame.plug_error (F : Frame) (Γ Γ' : Env) (e : Expr) (d : Diag)
         simp [h1, h2] at henv; subst henv
         simp [Frame.plug, tc, h1, FuncHole.plug_error _ s h e d h2 he]
 
+  | tupleE ln pre post ms =>
+    obtain ⟨⟨cs, h1⟩, rfl⟩ := seq_pure_ok (by simpa [Frame.env] using henv)
+    simp [Frame.plug, tc, tcArgs_app_error Γ' e post d he pre cs h1]
+  | projE ln iln i => simp [Frame.env] at henv; subst henv; simp [Frame.plug, tc, he]
+  | rangeF ln ps t post =>
+    obtain ⟨⟨n, h1⟩, rfl⟩ := seq_pure_ok (by simpa [Frame.env] using henv)
+    simp [Frame.plug, tc, tcBounds_flat_error Γ' _ d (tcBounds_from_error Γ' e t post d he) ps n h1]
+  | rangeT ln ps f post =>
+    simp only [Frame.env] at henv
+    cases h1 : tcBounds Γ (flatPairs ps .nil) with
+    | error d' => simp [h1] at henv
+    | ok n =>
+      cases h2 : tc Γ f with
+      | error d' => simp [h1, h2] at henv
+      | ok cf =>
+        simp [h1, h2] at henv; subst henv
+        simp [Frame.plug, tc, tcBounds_flat_error Γ _ d (tcBounds_to_error Γ f e post cf d h2 he) ps n h1]
+  | sliceA ln bounds => simp [Frame.env] at henv; subst henv; simp [Frame.plug, tc, he]
+  | sliceF ln a ps t post =>
+    simp only [Frame.env] at henv
+    cases h0 : tc Γ a with
+    | error d' => simp [h0] at henv
+    | ok ca =>
+      cases h1 : tcBounds Γ (flatPairs ps .nil) with
+      | error d' => simp [h0, h1] at henv
+      | ok n =>
+        simp [h0, h1] at henv; subst henv
+        simp [Frame.plug, tc, h0, tcBounds_flat_error Γ _ d (tcBounds_from_error Γ e t post d he) ps n h1]
+  | sliceT ln a ps f post =>
+    simp only [Frame.env] at henv
+    cases h0 : tc Γ a with
+    | error d' => simp [h0] at henv
+    | ok ca =>
+      cases h1 : tcBounds Γ (flatPairs ps .nil) with
+      | error d' => simp [h0, h1] at henv
+      | ok n =>
+        cases h2 : tc Γ f with
+        | error d' => simp [h0, h1, h2] at henv
+        | ok cf =>
+          simp [h0, h1, h2] at henv; subst henv
+          simp [Frame.plug, tc, h0, tcBounds_flat_error Γ _ d (tcBounds_to_error Γ f e post cf d h2 he) ps n h1]
+  | pipeL ln f args => simp [Frame.env] at henv; subst henv; simp [Frame.plug, tc, he]
+  | pipeF ln l args =>
+    obtain ⟨⟨a, h1⟩, rfl⟩ := seq_pure_ok (by simpa [Frame.env] using henv)
+    simp [Frame.plug, tc, h1, he]
+  | pipeA ln l f pre post =>
+    simp only [Frame.env] at henv
+    cases h0 : tc Γ l with
+    | error d' => simp [h0] at henv
+    | ok cl =>
+      cases h1 : tc Γ f with
+      | error d' => simp [h0, h1] at henv
+      | ok cf =>
+        cases h2 : tcArgs Γ pre with
+        | error d' => simp [h0, h1, h2] at henv
+        | ok cs =>
+          simp [h0, h1, h2] at henv; subst henv
+          simp [Frame.plug, tc, h0, h1, tcArgs_app_error Γ e post d he pre cs h2]
+  | subE pre post =>
+    obtain ⟨⟨lv, h1⟩, rfl⟩ := seq_pure_ok (by simpa [Frame.env] using henv)
+    simp [Frame.plug, tc, tcRows_app_error Γ' e post d he pre lv h1]
+  | ifLetE ln gln en it t f => simp [Frame.env] at henv; subst henv; simp [Frame.plug, tc, he]
+  | ifLetT ln gln en it e0 f =>
+    simp only [Frame.env] at henv
+    cases h1 : tc Γ e0 with
+    | error d' => simp [h1] at henv
+    | ok ce =>
+      simp only [h1, bind_ok] at henv
+      simp only [Frame.plug, tc, h1, bind_ok]
+      split at henv
+      · rename_i en' hct
+        cases h2 : guardItemPre Γ gln en it with
+        | error d' => simp [h2] at henv
+        | ok u => simp [h2] at henv; subst henv; simp [hct, h2, he]
+      · simp at henv
+  | ifLetF ln gln en it e0 t =>
+    simp only [Frame.env] at henv
+    cases h1 : tc Γ e0 with
+    | error d' => simp [h1] at henv
+    | ok ce =>
+      simp only [h1, bind_ok] at henv
+      simp only [Frame.plug, tc, h1, bind_ok]
+      split at henv
+      · rename_i en' hct
+        cases h2 : guardItemPre Γ gln en it with
+        | error d' => simp [h2] at henv
+        | ok u =>
+          cases h3 : tc Γ t with
+          | error d' => simp [h2, h3] at henv
+          | ok ct => simp [h2, h3] at henv; subst henv; simp [hct, h2, h3, he]
+      · simp at henv
+
 theorem seq_pure_error {α} {m : Except Diag α} {Γ : Env} {d : Diag}
     (h : (m >>= fun _ => (pure Γ : Except Diag Env)) = .error d) : m = .error d := by
   cases m with
@@ -334,6 +426,109 @@ theorem Frame.plug_prefix (F : Frame) (Γ : Env) (e : Expr) (d : Diag)
         simp [h1, h2] at henv; subst henv
         simp [Frame.plug, tc, h1, FuncHole.plug_prefix _ s h e d' h2]
       | ok u => simp [h1, h2] at henv
+  | tupleE ln pre post ms =>
+    have h1 := seq_pure_error (by simpa [Frame.env] using henv)
+    simp [Frame.plug, tc, tcArgs_app_prefix Γ pre _ d h1]
+  | projE ln iln i => simp [Frame.env] at henv
+  | rangeF ln ps t post =>
+    have h1 := seq_pure_error (by simpa [Frame.env] using henv)
+    simp [Frame.plug, tc, tcBounds_flat_prefix Γ _ ps d h1]
+  | rangeT ln ps f post =>
+    simp only [Frame.env] at henv
+    cases h1 : tcBounds Γ (flatPairs ps .nil) with
+    | error d' => simp [h1] at henv; subst henv; simp [Frame.plug, tc, tcBounds_flat_prefix Γ _ ps d' h1]
+    | ok n =>
+      cases h2 : tc Γ f with
+      | error d' =>
+        simp [h1, h2] at henv; subst henv
+        simp [Frame.plug, tc, tcBounds_flat_error Γ _ d' (tcBounds_to_prefix Γ f e post d' h2) ps n h1]
+      | ok cf => simp [h1, h2] at henv
+  | sliceA ln bounds => simp [Frame.env] at henv
+  | sliceF ln a ps t post =>
+    simp only [Frame.env] at henv
+    cases h0 : tc Γ a with
+    | error d' => simp [h0] at henv; subst henv; simp [Frame.plug, tc, h0]
+    | ok ca =>
+      cases h1 : tcBounds Γ (flatPairs ps .nil) with
+      | error d' =>
+        simp [h0, h1] at henv; subst henv
+        simp [Frame.plug, tc, h0, tcBounds_flat_prefix Γ _ ps d' h1]
+      | ok n => simp [h0, h1] at henv
+  | sliceT ln a ps f post =>
+    simp only [Frame.env] at henv
+    cases h0 : tc Γ a with
+    | error d' => simp [h0] at henv; subst henv; simp [Frame.plug, tc, h0]
+    | ok ca =>
+      cases h1 : tcBounds Γ (flatPairs ps .nil) with
+      | error d' =>
+        simp [h0, h1] at henv; subst henv
+        simp [Frame.plug, tc, h0, tcBounds_flat_prefix Γ _ ps d' h1]
+      | ok n =>
+        cases h2 : tc Γ f with
+        | error d' =>
+          simp [h0, h1, h2] at henv; subst henv
+          simp [Frame.plug, tc, h0, tcBounds_flat_error Γ _ d' (tcBounds_to_prefix Γ f e post d' h2) ps n h1]
+        | ok cf => simp [h0, h1, h2] at henv
+  | pipeL ln f args => simp [Frame.env] at henv
+  | pipeF ln l args =>
+    have h1 := seq_pure_error (by simpa [Frame.env] using henv)
+    simp [Frame.plug, tc, h1]
+  | pipeA ln l f pre post =>
+    simp only [Frame.env] at henv
+    cases h0 : tc Γ l with
+    | error d' => simp [h0] at henv; subst henv; simp [Frame.plug, tc, h0]
+    | ok cl =>
+      cases h1 : tc Γ f with
+      | error d' => simp [h0, h1] at henv; subst henv; simp [Frame.plug, tc, h0, h1]
+      | ok cf =>
+        cases h2 : tcArgs Γ pre with
+        | error d' =>
+          simp [h0, h1, h2] at henv; subst henv
+          simp [Frame.plug, tc, h0, h1, tcArgs_app_prefix Γ pre _ d' h2]
+        | ok cs => simp [h0, h1, h2] at henv
+  | subE pre post =>
+    have h1 := seq_pure_error (by simpa [Frame.env] using henv)
+    simp [Frame.plug, tc, tcRows_app_prefix Γ pre _ d h1]
+  | ifLetE ln gln en it t f => simp [Frame.env] at henv
+  | ifLetT ln gln en it e0 f =>
+    simp only [Frame.env] at henv
+    cases h1 : tc Γ e0 with
+    | error d' => simp [h1] at henv; subst henv; simp [Frame.plug, tc, h1]
+    | ok ce =>
+      simp only [h1, bind_ok] at henv
+      simp only [Frame.plug, tc, h1, bind_ok]
+      split at henv
+      · rename_i en' hct
+        cases h2 : guardItemPre Γ gln en it with
+        | error d' => simp [h2] at henv; subst henv; simp [hct, h2]
+        | ok u => simp [h2] at henv
+      · rename_i hne
+        simp at henv; subst henv
+        split
+        · rename_i en' hct
+          exact absurd hct (hne en')
+        · rfl
+  | ifLetF ln gln en it e0 t =>
+    simp only [Frame.env] at henv
+    cases h1 : tc Γ e0 with
+    | error d' => simp [h1] at henv; subst henv; simp [Frame.plug, tc, h1]
+    | ok ce =>
+      simp only [h1, bind_ok] at henv
+      simp only [Frame.plug, tc, h1, bind_ok]
+      split at henv
+      · rename_i en' hct
+        cases h2 : guardItemPre Γ gln en it with
+        | error d' => simp [h2] at henv; subst henv; simp [hct, h2]
+        | ok u =>
+          cases h3 : tc Γ t with
+          | error d' => simp [h2, h3] at henv; subst henv; simp [hct, h2, h3]
+          | ok ct => simp [h2, h3] at henv
+      · rename_i hne
+        simp at henv; subst henv
+        split
+        · rename_i en' hct
+          exact absurd hct (hne en')
+        · rfl
 
 
 /-! ## stacks of frames and whole programs -/
